@@ -465,10 +465,40 @@ def gen_ijepa(rng, small=False):
         es = rng.choice([(0.2, 0.6), (0.3, 0.4), (0.1, 1.0)])
         pscale = rng.choice([(0.2, 0.5), (0.3, 0.3), (0.05, 0.6)])
     par = rng.choice([(0.75, 1.5), (1.0, 1.0), (0.3, 3.0), (0.5, 0.5)])
+    # min_keep mostly below the smallest encoder block so that the sampler ends (a few cases keep the non-terminating regime
+    # and single-patch blocks: compared, reported as observations, never judged)
+    area = int(H * W * es[0])
+    if rng.random() < 0.9:
+        mk = rng.choice([0, 1, 2, 4, 10])
+        mk = min(mk, max(area // 3, 0))
+    else:
+        mk = rng.choice([0, 4, 10, 40])
+    if rng.random() < 0.85 and H * W * pscale[0] < 2.5:
+        pscale = (max(pscale[0], 2.6 / (H * W)), max(pscale[1], 2.6 / (H * W)))
     return {"kind": "ijepa", "H": H, "W": W, "ps": rng.choice([1, 2, 16]), "B": rng.randint(1, 5), "enc_scale": list(es),
             "pred_scale": list(pscale), "pred_ar": list(par), "nPred": rng.randint(1, 4), "nEnc": rng.randint(1, 2),
-            "minKeep": rng.choice([0, 1, 2, 4, 10, 10]), "tries": rng.choice([1, 2, 20]), "counter": rng.randint(-1, 20),
-            "seed": rng.randrange(1 << 30), "mode": rng.choice(["x", "index x", "x class"]), "budget": 1500}
+            "minKeep": mk, "tries": rng.choice([1, 2, 20]), "counter": rng.randint(-1, 20),
+            "seed": rng.randrange(1 << 30), "mode": rng.choice(["x", "index x", "x class"]), "budget": 1200}
+
+
+def transparent(case, ans):
+    """the recording proxies change nothing: the same seed through a plain numpy generator gives the same tensors"""
+    import numpy as np
+    if ans["out"] != "ok":
+        return True
+    if case["kind"] == "dino":
+        from kappadata.collators import kd_dino_mask_collator as mod
+        coll = mod.KDDinoMaskCollator(mask_ratio=tuple(case["ratio"]), mask_prob=case["prob"], mask_size=(case["H"], case["W"]),
+                                      num_views=case["V"], min_num_patches=case["minp"], min_aspect=case["min_aspect"],
+                                      max_aspect=case.get("max_aspect"), dataset_mode=case["mode"], return_ctx=True)
+        coll.rng = np.random.default_rng(case["seed"])
+        _, ctx = coll(make_batch(case))
+        return ctx["mask"].to(int).tolist() == ans["masks"]
+    _, coll = make_ijepa(case, [], case["seed"])
+    coll.rng = np.random.default_rng(case["seed"])
+    _, ctx = coll(make_batch(case))
+    pm, em = ctx["predictor_masks"], ctx["encoder_masks"]
+    return pm.reshape(pm.shape[0], -1).tolist() == ans["pred"] and em.reshape(em.shape[0], -1).tolist() == ans["enc"]
 
 
 # ----------------------------------------------------------------------------------------------
@@ -535,7 +565,7 @@ class C17(PropertyCheck):
         if cdir.exists():
             for p in sorted(cdir.glob("*.json")):
                 corpus.append(json.loads(p.read_text()))
-        nd, nj = (700, 500) if self.tier == "quick" else (12000, 7000)
+        nd, nj = (1400, 1100) if self.tier == "quick" else (14000, 10000)
         out = list(corpus)
         for i in range(nd):
             out.append(gen_dino(self.rng, small=(i % 3 == 0)))
@@ -573,7 +603,13 @@ class C17(PropertyCheck):
                 res.observations.append({"what": "constrained encoder sampler does not end (block of <= min_keep admissible cells)", "case": case})
             if ans["out"] == "len0d":
                 res.observations.append({"what": "single-patch block: index tensor squeezed to 0-d, len() raises", "case": case})
+            if i % 7 == 0:
+                res.bump("proxy-transparency-checked")
+                if not transparent(case, ans):
+                    res.disagreements.append(Disagreement(case, "recorded run", "plain run", note="recording proxy is not transparent"))
             model = answers.get(i)
+            if model is None and ans["out"] == "ok":
+                res.disagreements.append(Disagreement(case, "no tape could be read off the log", view(case, ans)))
             if model is not None and view(case, ans) != view(case, model):
                 if len(res.disagreements) < 50:
                     res.disagreements.append(Disagreement(case, view(case, model), view(case, ans), note=aux.get("exc", "")))
